@@ -8,12 +8,13 @@ correspondence leg   the fx graph of the real `SuperNet.seed`, its module names 
                      (surviving node list with op kind + target + arguments, surviving qualified
                      module names, winner per block) is diffed against the real `export()`.
 histories            "for every value of the selection coefficients": op sequences on fresh SuperNets (alpha
-                     written in place / by .data assignment / by load_state_dict, hard switched,
-                     temperature updated, forward passes in eval or train mode incl. Gumbel noise) ending
-                     in export() - mostly with NO forward pass since the last write of alpha. The model
-                     (`runHist`, `exportWinners`; theorems export_follows_last_write,
-                     export_ignores_sampling_history, stale_theta_rule_exports_wrong_branch) says export
-                     reads the current alpha only; `best_layer_index()`, arg-max of theta_alpha and the
+                     written in place / through .data / as a fresh Parameter / by load_state_dict, hard
+                     switched, temperature updated, forward passes in eval or train mode incl. Gumbel
+                     noise, export() as a repeatable op) ending in export() - mostly with NO forward pass
+                     since the last write of alpha. The model (`runHist`, `exportWinners`; theorems
+                     export_follows_last_write, export_ignores_sampling_history,
+                     export_ignores_earlier_exports, stale_theta_rule_exports_wrong_branch) says export is
+                     a function of the current alpha only; every export of a history is checked; `best_layer_index()`, arg-max of theta_alpha and the
                      hard flags after the history are diffed against it, and the oracle below is run with
                      the hard-selection reference output computed AFTER export().
 oracle leg           the property's own statement on the real code: hard-mode `SuperNet.eval()(x)` vs
@@ -531,11 +532,13 @@ def run(chk):
                 'styles with a unique arg-max (margin >= 1/16). non-trivial = the winner combination is not '
                 'all-zero (the only one the unit tests export); distinct = distinct (network, winner combination). '
                 'PLUS op histories on fresh SuperNets: alpha written (in-place copy / .data assignment / '
-                'load_state_dict) / hard switched / temperature updated / forward passes (eval or train, Gumbel '
-                'noise included) in random order, every block written at least once, ending in export() - in '
-                'most of them with NO forward pass since the last write of alpha; the hard-selection reference '
-                'output is computed AFTER export(). non-trivial history = no forward since the last write, or a '
-                'training-mode forward')
+                '.data.copy_ / fresh nn.Parameter / load_state_dict) / hard switched / temperature updated / forward '
+                'passes (eval or train, Gumbel noise included) / export() as a repeatable op (about half of the '
+                'histories export 2-3 times on ONE SuperNet, alpha rewritten in between so that the arg-max '
+                'moves), every block written at least once, ending in export() - mostly with NO forward pass '
+                'since the last write of alpha; every export is checked against the arg-max current at that '
+                'time; the hard-selection reference outputs are computed AFTER the last export(). non-trivial '
+                'history = no forward since the last write, an earlier export, or a training-mode forward')
     chk.trusted.append('torch.fx tracing / ShapeProp / recompile / delete_all_unused_submodules and the torch '
                        'kernels (exercised by the oracle leg on every case, modelled as SSA substitution)')
     chk.prove()
@@ -590,8 +593,8 @@ def run(chk):
         use = '+'.join(sorted({b['use'] for b in spec['blocks']}))
         if rec.get('hist') is not None:
             stale = hist_is_stale(rec['hist'])
-            nontriv = stale or any(op['op'] == 'fwd' and op['train'] for op in rec['hist'])
-            hb = 'history:%s' % ('no-forward-since-alpha-change' if stale else 'forward-after-last-alpha-change')
+            nontriv = stale or any(op['op'] == 'export' or op['op'] == 'fwd' and op['train'] for op in rec['hist'])
+            hb = 'history:%s' % hist_class(rec['hist'])
             chk.hist[hb] = chk.hist.get(hb, 0) + 1
             for op in rec['hist']:
                 k = 'history-op:' + (op['op'] + ('/' + op['how'] if op['op'] == 'alpha' else '') +
@@ -658,8 +661,9 @@ def replay(data):
         print('history before export() (fresh SuperNet):')
         for op in case['hist']:
             print('   ', json.dumps(op))
-        print('   export()   [%s]' % ('no forward pass since the last write of alpha' if hist_is_stale(case['hist'])
-                                      else 'a forward pass follows the last write of alpha'))
+        print('   export()   <- checked   [%s; %s]' % (
+            hist_class(case['hist']), 'no forward pass since the last write of alpha'
+            if hist_is_stale(case['hist']) else 'a forward pass follows the last write of alpha'))
     for kind, text in fails:
         print('FAILS [%s] %s' % (kind, text))
     if not fails:
